@@ -198,9 +198,16 @@ def mutation_cmds(alg, params, lay, quick, tag):
     for f in lay["pk_fields"]:
         V(M, S, {"mut": P, "kind": "flip_in", "off": f["off"], "len": f["len"], "tag": "%s/pk/%s" % (tag, f["name"])},
           "pk_flip", field=f["name"])
+        V(M, S, {"mut": P, "kind": "flip", "off": f["off"], "bit": 7}, "pk_flip_first", field=f["name"])
+        V(M, S, {"mut": P, "kind": "flip", "off": f["off"] + f["len"] - 1, "bit": 0}, "pk_flip_last", field=f["name"])
+        V(M, S, {"mut": P, "kind": "flip", "off": f["off"] + f["len"] // 2, "bit": 3}, "pk_flip_middle", field=f["name"])
         if f["len"] == 4:
             for hv in HEADER_VALUES[:12] + ["ffffffff"]:
                 V(M, S, {"mut": P, "kind": "set", "off": f["off"], "with": hv}, "pk_header_set", field=f["name"], value=hv)
+    # the same seed and parameters under the OTHER hash family of the same output length
+    V(M, slot("xsig"), P, "sig_other_hash_family")
+    V(M, slot("xsig"), slot("xpk"), "sig_and_pk_other_hash_family")
+    V(M, S, slot("xpk"), "pk_other_hash_family")
     # whole-object substitutions
     V(M, slot("sig2"), P, "sig_other_counter_wrong_msg")
     V(slot("msg2"), slot("sig2"), P, "valid_other_counter")
@@ -306,6 +313,9 @@ def mutation_groups(ctx, which):
                 cmd_sign(alg, key_at("sk", ctr), slot("msg"), out={"sig": "sig"}, light=True),
                 cmd_sign(alg, key_at("sk", (ctr + 5) % lifetime_of(params)), slot("msg2"), out={"sig": "sig2"}, light=True),
                 cmd_sign(alg, key_at("osk", ctr), slot("msg"), out={"sig": "osig"}, light=True)]
+        xalg = ("shake256_n%d" if alg.startswith("sha256") else "sha256_n%d") % N_OF[alg]
+        cmds += [cmd_keygen(xalg, params, seed_hex(name, alg), out={"sk": "xsk", "pk": "xpk"}),
+                 cmd_sign(xalg, key_at("xsk", ctr), slot("msg"), out={"sig": "xsig"}, light=True)]
         L = layout_of(lay, alg, params)
         if which == "c02":
             cmds += mutation_cmds(alg, params, L, quick, name)
@@ -508,16 +518,20 @@ def api_walk_groups(ctx, plan):
     return groups
 
 
-def lifetime_walk(name, alg, params, plans_cycle, api="bytes"):
+def lifetime_walk(name, alg, params, plans_cycle, api="bytes", start=0):
     """complete lifetime with a lifetime query before and after every step, callback plans mixed in, and
     attempts after exhaustion"""
     k = "k1"
     cmds = []
     kg = cmd_keygen(alg, params, seed_hex(name, alg), out={"sk": "store_k1", "pk": "pk_k1"})
     kg["k"] = k
+    if start:
+        kg["start_ctr"] = "%016x" % start
     cmds.append(kg)
+    if start:
+        cmds.append({"op": "set", "slot": "store_k1", "value": key_at("store_k1", start)})
     cmds.append({"op": "load", "alg": alg, "mem": "mem_k1", "key": slot("store_k1"), "k": k})
-    total = lifetime_of(params)
+    total = lifetime_of(params) - start
     done = 0
     i = 0
     while done < total and i < 4 * total + 8:
@@ -563,6 +577,10 @@ def api_phases(ctx, emphasis):
         groups.append(lifetime_walk("life/%s/h2" % alg, alg, [(ws[ai % 4], 2)], cyc[ai % 4]))
         groups.append(lifetime_walk("life/%s/h2x2" % alg, alg, [(ws[(ai + 1) % 4], 2), (ws[(ai + 2) % 4], 2)], cyc[(ai + 1) % 4]))
         groups.append(lifetime_walk("life/%s/h2-mem" % alg, alg, [(ws[(ai + 3) % 4], 2)], ["accept"], api="mem"))
+        # MIXED per-level heights: the last leaves of a 2^7 lifetime (crossing subtree roll-overs both ways)
+        groups.append(lifetime_walk("life/%s/h2h5-end" % alg, alg, [(ws[(ai + 2) % 4], 2), (4, 5)], cyc[ai % 4], start=128 - 36))
+        groups.append(lifetime_walk("life/%s/h5h2-end" % alg, alg, [(4, 5), (ws[(ai + 1) % 4], 2)], cyc[(ai + 2) % 4], start=128 - 10,
+                                    api="mem" if ai % 2 else "bytes"))
         if not quick:
             groups.append(lifetime_walk("life/%s/h2x2x2" % alg, alg, [(4, 2), (ws[ai % 4], 2), (2, 2)], cyc[(ai + 2) % 4]))
             groups.append(lifetime_walk("life/%s/h5" % alg, alg, [(4, 5)], cyc[(ai + 3) % 4]))
@@ -858,6 +876,19 @@ def c10_phases(ctx):
         cmds += use({"rep": full, "byte": 255}, "all_ones")
         cmds += use({"mut": slot("aux"), "kind": "set", "off": 0, "with": "00"}, "valid_but_marker_cleared")
         cmds += use(slot("paux"), "aux_same_seed_other_params")
+        # composed faults: cached nodes corrupted AND the buffer truncated around the MAC / padded
+        for j, ln in enumerate([full - n, full - n + 1, full - n // 2, full - 1, full - n - 1]):
+            bad = {"mut": {"mut": slot("aux"), "kind": "flip", "off": 4 + (7 * j) % (full - n - 4), "bit": j % 8}, "kind": "trunc", "len": ln}
+            cmds += use(bad, "corrupted_and_truncated", len=ln)
+            bad2 = {"mut": {"mut": slot("oaux"), "kind": "trunc", "len": ln}, "kind": "set", "off": 0, "with": {"slice": slot("aux"), "off": 0, "len": 4}}
+            cmds += use(bad2, "other_seed_truncated", len=ln)
+        for j, ext in enumerate([1, n, 100]):
+            bad = {"mut": {"mut": slot("aux"), "kind": "flip", "off": 4 + 11 * j, "bit": 1}, "kind": "extend", "with": {"rep": ext, "byte": 0}}
+            cmds += use(bad, "corrupted_and_padded", ext=ext)
+        # the MAC replaced by zeros / the MAC of another buffer / the MAC cut and re-padded with zeros
+        cmds += use({"mut": slot("aux"), "kind": "set", "off": full - n, "with": {"rep": n, "byte": 0}}, "mac_zeroed")
+        cmds += use({"mut": {"mut": slot("aux"), "kind": "flip", "off": 9, "bit": 2}, "kind": "set", "off": full - n, "with": {"rep": n, "byte": 0}}, "corrupted_mac_zeroed")
+        cmds += use({"mut": {"mut": slot("aux"), "kind": "flip", "off": 9, "bit": 2}, "kind": "set", "off": full - n, "with": {"slice": slot("oaux"), "off": full - n, "len": n}}, "corrupted_mac_of_other_seed")
         # a buffer filled during SIGNING with a fresh buffer (never MACed) and re-used afterwards
         cmds.append(cmd_sign(alg, key_at("sk", ctrs[1]), "aa", aux={"rep": full, "byte": 0}, out={"aux": "saux"}, meta={"class": "fresh_zero"}))
         cmds += use(slot("saux"), "left_by_signing_with_fresh_buffer")
@@ -934,6 +965,14 @@ def c14_variant_groups(levels, heights, ws, vi, quick):
             g["cmds"].append(cmd_lifetime(alg, slot("wiped")))
             groups.append(g)
         if alg == algs[0]:
+            # the LONGEST signatures the limits allow (per-level maximum height capped at 10 for affordability,
+            # per-level minimum w): exercises every fixed-size buffer of the build
+            big = [(ws[lv], min(heights[lv], 10)) for lv in range(levels)]
+            if sum(h for _, h in big) <= 25 and all(not (w == 8 and h == 10) for w, h in big):
+                bt = lifetime_of(big)
+                g = walk_group("c14/in/%s/longest" % alg, alg, big, [0, bt - 1], [9], light=True)
+                g["cmds"].insert(0, {"op": "info"})
+                groups.append(g)
             # with aux and a top tree as tall as the build allows (<= 5): a cached level equal to the build's
             # maximum tree height must be covered by the MAC and read back
             top = (max(ws[0], 4), 5 if heights[0] >= 5 else 2)
@@ -979,9 +1018,9 @@ def c14_variant_groups(levels, heights, ws, vi, quick):
 
 def c14_phases(ctx):
     quick = ctx["tier"] == "quick"
-    configs = [(1, [5], [4]), (2, [10, 5], [2, 4]), (3, [5, 5, 5], [8, 8, 8])]
+    configs = [(1, [5], [4]), (2, [5, 10], [4, 2]), (3, [5, 5, 5], [8, 8, 8])]
     if not quick:
-        configs += [(4, [5, 10, 5, 5], [1, 2, 4, 8]), (1, [25], [1]), (2, [5, 5], [8, 8]), (5, [5] * 5, [4] * 5), (6, [15, 10, 5, 5, 5, 5], [2, 2, 4, 4, 8, 8]),
+        configs += [(2, [10, 5], [2, 4]), (4, [5, 10, 5, 5], [1, 2, 4, 8]), (1, [25], [1]), (2, [5, 5], [8, 8]), (5, [5] * 5, [4] * 5), (6, [15, 10, 5, 5, 5, 5], [2, 2, 4, 4, 8, 8]),
                     (7, [5] * 7, [8] * 7), (8, [10, 5, 5, 5, 5, 5, 5, 5], [4] * 8), (3, [20, 15, 10], [1, 2, 4]), (2, [5, 25], [8, 1])]
     phases = []
     for vi, (levels, heights, ws) in enumerate(configs):
@@ -1125,3 +1164,60 @@ def c01_design(ctx):
 
 
 REGISTRY["C01"]["design"] = c01_design
+
+
+
+# ---- C09: the same calls from many threads and from a fresh process ------------------------------
+def c09_parallel_groups(ctx):
+    quick = ctx["tier"] == "quick"
+    groups = []
+    for ai, alg in enumerate(ALGS if not quick else ALGS[::2]):
+        ws = [1, 2, 4, 8]
+        params = [(ws[ai % 4], 2), (ws[(ai + 1) % 4], 2)]
+        other = [(ws[(ai + 2) % 4], 2)]
+        name = "c09/par/%s" % alg
+        cmds = [cmd_keygen(alg, params, seed_hex(name, alg)),
+                cmd_keygen(alg, other, seed_hex(name + "/o", alg), out={"sk": "osk", "pk": "opk"})]
+        inner = []
+        for i, c in enumerate([0, 3, 4, 15] if quick else [0, 1, 3, 4, 7, 8, 15]):
+            m = msg_hex("%s/%d" % (name, i), 10 + i)
+            inner.append(cmd_sign(alg, key_at("sk", c), m, out={"sig": "s"}))
+            inner.append(cmd_verify(alg, m, slot("s"), slot("pk")))
+            inner.append(cmd_sign(alg, key_at("osk", c % 4), m, plan="reject" if i % 3 == 2 else "accept"))
+        inner.append(cmd_keygen(alg, params, seed_hex(name, alg), out={"sk": "sk2", "pk": "pk2"}))
+        inner.append({"op": "load", "alg": alg, "mem": "m", "key": key_at("sk", 2)})
+        inner.append(cmd_sign(alg, None, "c0ffee", api="mem", mem="m"))
+        inner.append(cmd_sign(alg, None, "c0ffee", api="mem", mem="m"))
+        inner.append(cmd_lifetime(alg, mem="m"))
+        cmds += inner                                        # in the main thread, before
+        cmds.append({"op": "threads", "n": 4 if quick else 16, "cmds": inner})
+        cmds.append({"op": "subprocess", "cmds": inner})
+        cmds += inner                                        # and again afterwards
+        groups.append({"name": name, "cmds": cmds, "cost": 2 + 0.02 * len(inner) * 20})
+    return groups
+
+
+def c09_phases(ctx):
+    ph = api_phases(ctx, "c09")
+    ph[0]["groups"] += c09_parallel_groups(ctx)
+    ph[0]["space"] += "; the same keygen/sign/verify/lifetime calls from the main thread, 4-16 concurrent threads and a fresh child process"
+    return ph
+
+
+REGISTRY["C09"]["phases"] = c09_phases
+
+
+# ---- C05 also owns the pure accounting arithmetic for tall multi-level shapes (hook, no trees) ------
+def c05_phases(ctx):
+    ph = api_phases(ctx, "c05")
+    ph[0]["groups"] += arith_groups(ctx, ctx["tier"] == "quick")
+    ph[0]["space"] += "; counter/lifetime arithmetic through the hook for height tuples x boundary counters (MC_Arith!BoundaryCtrs)"
+    return ph
+
+
+def c05_design(ctx):
+    return api_design(ctx, ["MC_Api_neg_noadvance.cfg"]) + c13_design(ctx)[:1]
+
+
+REGISTRY["C05"]["phases"] = c05_phases
+REGISTRY["C05"]["design"] = c05_design
